@@ -85,7 +85,7 @@ def gen(tier, rng):
         if tier != "quick" or i % 3 == 0:
             yield {"kind": "cut", "at": i, "how": "timeout"}
     # 6. random mixtures
-    for _ in range(100 if tier == "quick" else 5000):
+    for _ in range(600 if tier == "quick" else 5000):
         hs = rng.choice(list(variants(key)))
         hs = list(hs)
         rng.shuffle(hs)
